@@ -288,7 +288,11 @@ def run(F, R, tier, M=None):
                  "must be rejected, not aliased to key 3)", 0)
     n_narrow, n_dead = narrowing_check(F, R, "E2")
     R.analysed["integral_narrowings"] = dict(found=n_narrow, in_dead_template_branches=n_dead)
-    if n_narrow < 2:
+    # positive control: while convert_to<> dispatches on the type with an if-chain, its dead branches contain narrowing
+    # conversions that must be seen (and skipped); an overload set has no dead branches
+    _chain = any(x.get("k") == "DeclRefExpr" and re.search(r"is_same|integral_constant<bool", str(x.get("n") or ""))
+                 for g_ in F.by_name.get("gm2calc::GM2_slha_io::convert_to", []) for x in walk(g_["body"]))
+    if n_narrow < 2 and _chain:
         R.soft_broken("E2: the narrowing sites of convert_to<> (dead template branches) were not seen: extraction incomplete")
 
     # ---- F parsed indices ----------------------------------------------------------------------
